@@ -13,6 +13,14 @@ NOTES = {
  "C13-A": "missed at first; C13's menu gained a Retry-After above the 128 s cap",
  "C13-B": "missed at first; C13's menu gained a transport-level timeout error (errors.Is(err, context.DeadlineExceeded)) with a live caller context",
  "C14-A": "neutralised by fix 94192e0 (hash re-check): with the fix the change no longer breaks the property (its demonstration passes); on the pre-fix tree C14 reports it as `[unparseable-row]`",
+ "C02-E": "C02 itself missed it at first (C18 caught it); C02's live pass gained leaves with NotAfter in 2300 and 9999",
+ "C02-F": "C02 itself missed it at first (C15 caught it); C02 gained the several-logs-per-process pass (roots files narrow / wide / narrow)",
+ "C07-F": "missed at first; C07's stored entries gained a certificate the lenient parser accepts with a non-fatal remark",
+ "C09-F": "missed at first; C09 gained the 80 layouts of two selectors with interleaved variant fields",
+ "C12-E": "missed at first; C12 gained sessions that submit the same precertificate under another issuer certificate",
+ "C14-E": "missed at first; C14's fixtures gained a cross-certified root (one issuing CA, two paths above it) and the group `cross`",
+ "C15-E": "missed at first; C15's frozen-STH alphabet gained the genuine signature next to altered size / timestamp / root",
+ "C15-F": "missed at first; C15's mirror history gained a lagging backend (later roots smaller than earlier ones)",
  "C16-A": "missed at first; C16's callback now retains the batches and re-reads them after the scan",
  "C01-D": "missed at first; ref/pki gained RSA keys published with a non-canonical SubjectPublicKeyInfo, used as issuers in C01 and C03",
  "C02-C": "missed at first (every pass pinned `now`); C02 gained the live-instance pass: real SetUpInstance from a LogConfig in a synctest bubble, one instance submitted to before and after the leaves' NotAfter",
@@ -37,11 +45,13 @@ for f in sorted(glob.glob("/verif/seeded/*/meta.json")):
     sid = os.path.basename(os.path.dirname(f))
     det = v.get("checks", {})
     by = ", ".join(f"{c} ({'; '.join(s[:70] for s in d['signatures'][:1])})" for c, d in det.items() if d.get("detected")) or "**not detected**"
+    if v.get("not_a_violation"):
+        by = "not a violation of the properties as stated (see meta.json)"
     conf = "yes" if v.get("confirmed") else "NO"
     rows.append(f"| {sid} | {(m.get('title') or '')[:110]} | {(m.get('needs_to_manifest') or '')[:150].replace('|','/')} | {conf} | {by.replace('|','/')} | {NOTES.get(sid, '')} |")
 table = "| id | change (seeded by an independent sub-agent) | needs in order to manifest | confirmed (tests pass, demo fails with / passes without) | caught by (quick tier; first signature) | note |\n|---|---|---|---|---|---|\n" + "\n".join(rows)
-n = len(rows); miss = sum(1 for r in rows if "**not detected**" in r)
-table += f"\n\n{n} seeded changes, {n - miss} caught by the registered quick checks; {len([k for k in NOTES])} of them only after the check was strengthened as noted (the strengthening generalises the class, e.g. cross-call state on one instance, boundary values of an alphabet, faults on the response path — not the individual change)."
+n = len(rows); miss = sum(1 for r in rows if "**not detected**" in r); nav = sum(1 for r in rows if "not a violation of the properties" in r)
+table += f"\n\n{n} seeded changes; {nav} judged not to violate the stated properties; of the other {n - nav}, {n - nav - miss} are caught by the registered quick checks; {len([k for k in NOTES])} of them only after the check was strengthened as noted (the strengthening generalises the class, e.g. cross-call state on one instance, boundary values of an alphabet, faults on the response path — not the individual change)."
 d = open("/verif/DESIGN.md").read()
 if "SEED_TABLE_PLACEHOLDER" in d:
     d = d.replace("SEED_TABLE_PLACEHOLDER", "<!-- seedtable:begin -->\n" + table + "\n<!-- seedtable:end -->")
